@@ -162,7 +162,7 @@ func formatScalarType(def ast.ScalarType) string {
 		scalarType = "Double"
 	case ast.KindBool:
 		scalarType = "Boolean"
-	case ast.KindAny:
+	case ast.KindAny, ast.KindNull:
 		scalarType = "Object"
 	}
 
@@ -213,6 +213,8 @@ func (tf *typeFormatter) emptyValueForType(def ast.Type) string {
 			return `""`
 		case ast.KindBytes:
 			return "(byte) 0"
+		case ast.KindAny, ast.KindNull:
+			return "null"
 		default:
 			return "unknown"
 		}
